@@ -73,6 +73,7 @@ func main() {
 		authMode := fs.String("auth", "", "password check mode: md5 (default) | bcrypt | plain")
 		work := fs.String("work", "", "scratch directory (badger)")
 		settle := fs.Int("settle", 0, "extra settle time per step in ms")
+		maxram := fs.Int("maxram", 0, "queue.max_messages_in_ram (0: default, never reached)")
 		fs.Parse(os.Args[2:])
 		var ops []string
 		sc := bufio.NewScanner(os.Stdin)
@@ -88,7 +89,7 @@ func main() {
 				disk = true
 			}
 		}
-		cfg := sessionCfg{Rabbit: *rabbit, Engine: *engine, Auth: *authMode, Disk: disk}
+		cfg := sessionCfg{Rabbit: *rabbit, Engine: *engine, Auth: *authMode, Disk: disk, MaxRAM: *maxram}
 		if disk && *engine != "badger" {
 			cfg.Dir = filepath.Join(*work, fmt.Sprintf("replay-disk-%d", os.Getpid()))
 		}
